@@ -3130,7 +3130,7 @@ def mk_memfs(tree, cwd="/"):
             files.append((T_(p), BoxRef(Adt("MemfsFile", None, None, [BV(64, False, 0), M.VecM([BV(8, False, ord(c)) for c in spec[1]]),
                                                                         M.opt_none(None), M.opt_none(None)]))))
     inner = BoxRef(Adt("MemfsInner", None, None, [TP.PathBufT(T_(cwd)), TP.PathBufT(T_("/")), MM.MapM(entries), MM.MapM(files)]))
-    memfs = Adt("Memfs", None, None, [Adt("Arc", None, None, [BoxRef(Adt("RwLock", None, None, [inner]))])])
+    memfs = Adt("Memfs", None, None, [Adt("Arc", None, None, [BoxRef(Adt("RwLock", None, None, [inner, MM.LockM()]))])])
     return memfs, inner
 
 
@@ -3160,6 +3160,11 @@ class MemRun:
             raise Unsupported("Memfs::%s not found in the MIR dump" % name)
         return f
 
+    def lock_of(self, st):
+        m = st.meta["memfs"]
+        rw = self.ex.deref(st, m.fields[0].fields[0])
+        return rw.fields[1] if len(rw.fields) > 1 else None
+
     def explore(self, tree, cwd, calls, cons, on_done):
         """calls: [(method, [values])]; on_done(st, results, inner) is invoked per completed path"""
         ex = self.ex
@@ -3172,6 +3177,11 @@ class MemRun:
                 return
             if i >= 0:
                 st.meta["results"] = st.meta["results"] + [("ret", st.retval)]
+                lk = self.lock_of(st)
+                if lk is not None and not lk.free():
+                    on_done(st, st.meta["results"] + [("panic", "the call returned while still holding the filesystem lock (writer=%s readers=%s)" % (
+                        lk.writer, lk.readers))], st.meta["inner"], i)
+                    return
             i += 1
             if i >= len(calls):
                 on_done(st, st.meta["results"], st.meta["inner"], i)
@@ -3453,11 +3463,19 @@ def mem_replay_src(f):
 #[test]
 fn replay_memfs_op() {
     // %s
-    let v = fixture();
+    let v = std::sync::Arc::new(fixture());
     v.set_cwd(%s).unwrap();
     let before = dump(&v);
-    let r = %s;
-    let failed = format!("{:?}", r).starts_with("Err");
+    // run the call on its own thread: a call that never returns (deadlock) must fail the replay, not hang it
+    let (tx, rx) = std::sync::mpsc::channel();
+    let v2 = v.clone();
+    std::thread::spawn(move || {
+        let v = v2;
+        let r = %s;
+        let _ = tx.send(format!("{:?}", r));
+    });
+    let r = rx.recv_timeout(std::time::Duration::from_secs(10)).expect("C12: the call did not return within 10 s (deadlock) or panicked");
+    let failed = r.starts_with("Err");
     if let Err(e) = well_formed(&v) {
         panic!("C03: tree not well formed after %s: {}\\n{}", e, dump(&v));
     }
